@@ -124,6 +124,18 @@ func corpus(g *gen) {
 	each(cfgSpec{epH: odd, bes: []beSpec{{}, {h: L("X-3SCALE-PROXY-SECRET-TOKEN", "X+PLUS", "X~TILDE-Y", "9-LIVES")}}}, reqSpec{lines: oddLines})
 	each(cfgSpec{epH: L("X-3Scale-Proxy-Secret-Token", "X~Tilde-Y"), bes: []beSpec{{h: L("X-3Scale-Proxy-Secret-Token")}}},
 		reqSpec{lines: P("x-3scale-proxy-secret-token", "s3cr3t", "x~tilde-y", "t")})
+	// GraphQL backends: the allow lists apply as for a plain backend; the stage's own Content-Type /
+	// Content-Length (and, GET transport, query / operationName / variables) replace the client's
+	for v := 0; v < 4; v++ {
+		for _, tr := range []string{"post", "get"} {
+			each(cfgSpec{epH: L("*"), epQ: L("*"), bes: []beSpec{{gql: tr, gqlVar: v, h: L("X-A", "Content-Type"), q: L("a", "query", "variables"), static: "s=1"}}},
+				reqSpec{lines: P("X-A", "1", "Cookie", "c", "Content-Type", "text/plain"), query: P("a", "1", "query", "{evil}", "variables", "{}", "operationName", "Evil", "y", "2")},
+				reqSpec{query: P("operationName", "Evil")})
+		}
+	}
+	each(cfgSpec{epH: L("Content-Type", "Content-Length", "X-A"), epQ: L("query", "a"), bes: []beSpec{{gql: "get", gqlVar: 3}, {gql: "post", gqlVar: 1, h: L("")}, {h: L("X-A")}}},
+		reqSpec{lines: P("X-A", "1", "Content-Type", "text/plain"), query: P("a", "1", "query", "{evil}")})
+	each(cfgSpec{bes: []beSpec{{gql: "post"}}}, reqSpec{lines: P("Content-Type", "text/plain", "X-A", "1"), query: P("query", "{evil}")})
 	// static query shares a key with a forwarded parameter; reserved characters; empty values
 	each(cfgSpec{epQ: L("a", "k&=", "e"), bes: []beSpec{{static: "a=0&s=x+y&a=%26"}}},
 		reqSpec{query: P("a", "1", "k&=", "v&=?#", "e", "", "e", "", "a", " 2")})
@@ -268,7 +280,7 @@ var headerPool = []string{"X-A", "X-B", "X-C", "Cookie", "Authorization", "Conte
 	"X-Forwarded-For", "X-Forwarded-Host", "X-Forwarded-Via", "X-Real-Ip", "X-Custom-Id", "Etag", "X_Under", "x.dot", "X-A-B-c", "X-*", "*", "", " ",
 	"x-3scale-proxy-secret-token", "X-1st-value", "9-lives", "x+plus", "x~tilde-y", "x!bang", "x#h", "x$d", "x%p", "x&a", "x'q", "x^c", "x`b", "x|p", "x_u-v"}
 var headerValues = []string{"v1", "v2", "a, b", "text/plain", "Mozilla/5.0 (X11)", "1.2.3.4", "", "k=v; x=y", "\xc3\xa9t\xc3\xa9", "*"}
-var queryKeys = []string{"a", "b", "c", "A", "id", "q", "x y", "k&=", "\xc3\xa4", "*", "", "a.b", "X-A", "a*", " ", ""}
+var queryKeys = []string{"query", "variables", "operationName", "a", "b", "c", "A", "id", "q", "x y", "k&=", "\xc3\xa4", "*", "", "a.b", "X-A", "a*", " ", ""}
 var queryValues = []string{"1", "2", "", "x y", "a&b=c", "%41", "\xc3\xbc", "+", "v", "#?/"}
 var statics = []string{"", "", "", "s=1", "a=0", "a=0&s=1&a=9", "x+y=1%262", "*=7", "b=&c"}
 
@@ -392,7 +404,7 @@ func validName(n string) bool {
 func random(g *gen, r *rng.R) {
 	n := 450
 	if g.cfg.Thorough() {
-		n = 9000
+		n = 5000
 	}
 	for i := 0; i < n; i++ {
 		cs := cfgSpec{adapter: adapters[r.Intn(len(adapters))], method: "GET"}
@@ -410,6 +422,11 @@ func random(g *gen, r *rng.R) {
 		}
 		if nb > 1 && r.Chance(1, 3) {
 			cs.sequential = true
+		}
+		if cs.method == "GET" && r.Chance(1, 8) {
+			b := r.Intn(nb)
+			cs.bes[b].gql = []string{"post", "get"}[r.Intn(2)]
+			cs.bes[b].gqlVar = r.Intn(4)
 		}
 		if r.Chance(1, 10) {
 			cs.concurrent = 2 + r.Intn(2)
